@@ -695,6 +695,54 @@ def rule_j(R, ctx):
     R.floor("C19.j", "signed-to-unsigned casts of C-side values", n, 2)
 
 
+def rule_k(R, ctx):
+    Yf = ctx.yffi
+    names = [v[1] if isinstance(v, (list, tuple)) else v.get("name") for v in ctx.yrs.enums.get("yrs::any::Any", [])]
+    R.rule("C19.k", "R-TABLE Any kind -> output cell, in both conversions: `impl From<Any> for YOutput` (top-level reads) and its "
+                    "borrowed twin `impl From<&Any> for YOutput` (values nested in JSON arrays / maps, formatting attributes in "
+                    "chunks and event deltas) send every scalar kind to the constructor of that kind — Null -> YOutput::null, "
+                    "Undefined -> YOutput::undefined, Bool -> From<bool>, Number -> From<f64>, BigInt -> From<i64> — read off the "
+                    "discriminant switch (variant order from the yrs enum) and the first YOutput constructor on each arm; the two "
+                    "impls agree arm by arm")
+    want = {"Null": r"YOutput::null$", "Undefined": r"YOutput::undefined$", "Bool": r"From<bool>>::from$", "Number": r"From<f64>>::from$", "BigInt": r"From<i64>>::from$"}
+    maps = {}
+    for path in ("<yffi::YOutput as std::convert::From<yrs::Any>>::from", "<yffi::YOutput as std::convert::From<&yrs::Any>>::from"):
+        fn = Yf.fn(path)
+        cfg = fn.cfg()
+        calls = {c.bb: c for c in fn.calls()}
+        m = {}
+        for l in F.switch_literals(fn):
+            if l.bb != 0 or isinstance(l.polarity, bool) or isinstance(l.polarity, tuple):
+                continue
+            try:
+                var = names[int(l.polarity)]
+            except (ValueError, IndexError, TypeError):
+                var = str(l.polarity)
+            # first YOutput constructor on the arm
+            seen, todo = set(), [l.to]
+            ctor = None
+            while todo and ctor is None:
+                x = todo.pop(0)
+                if x in seen:
+                    continue
+                seen.add(x)
+                c = calls.get(x)
+                if c is not None and (re.search(r"YOutput::(null|undefined)$", c.name) or re.search(r"^<yffi::YOutput as std::convert::From<.*>>::from$", c.name)):
+                    ctor = c
+                    break
+                todo.extend(cfg.succ[x])
+            m[var] = ctor
+        maps[path] = m
+        for var, pat in want.items():
+            c = m.get(var)
+            ok = c is not None and re.search(pat, c.name) is not None
+            R.ob("C19.k", fn, "arm:" + var, ok, "Any::%s -> %s" % (var, c.name.rsplit("::", 2)[-2:] if c else None) if ok else
+                 "Any::%s is converted by %s — expected %s: the C cell carries the tag of another kind" % (var, c.name if c else "nothing", pat.strip("$")), c.loc() if c else None)
+    a, b = list(maps.values())
+    R.floor("C19.k", "arms of the owned conversion", len(a), 9)
+    R.floor("C19.k", "arms of the borrowed conversion", len(b), 9)
+
+
 def check(ctx, R):
     holder = {}
     R.run("C19.a", lambda R, c: holder.setdefault("h", rule_a(R, c)), ctx)
@@ -706,6 +754,7 @@ def check(ctx, R):
     R.run("C19.h", rule_h, ctx)
     R.run("C19.i", rule_i, ctx)
     R.run("C19.j", rule_j, ctx)
+    R.run("C19.k", rule_k, ctx)
     if "h" in holder:
         R.run("C19.d", rule_d, ctx, holder["h"])
     return {}
